@@ -9,3 +9,12 @@ p = Project(os.environ.get("VERIF_REPO", "/repo"))
 c = ctx.canonical(p)
 json.dump(c, open(os.path.join(HERE, "pinned", "layout.json"), "w"), indent=0, sort_keys=True)
 print("pinned", len(c["types"]), "types")
+# response-code name tables
+from tpmsa.rules.c18 import MOD, TABLES
+M = ctx.model(p)
+out = {}
+for t in TABLES:
+    dv = M.force(M.env(MOD)[t])
+    out[t] = {str(k): v.items[0] for k, v, _ in dv.items}
+json.dump(out, open(os.path.join(HERE, "pinned", "rc_tables.json"), "w"), indent=0, sort_keys=True)
+print("pinned rc tables", {t: len(v) for t, v in out.items()})
